@@ -254,6 +254,13 @@ def cs_deg(x):
 
 
 def cs_any(x, degrees):
+    if isinstance(x, SV) and x.ang is None:
+        from . import sym as _sym
+        parts = _sym.ITE_PARTS.get(x.t.get_id())
+        if parts is not None and parts[3].eq(x.t):
+            c, a, b, _ = parts
+            (ca, sa), (cb, sb) = cs_any(a, degrees), cs_any(b, degrees)
+            return z3.If(c, ca, cb), z3.If(c, sa, sb)
     if isinstance(x, SV) and x.ang is not None:
         want = "deg" if degrees else "rad"
         if x.ang.unit != want:
